@@ -316,6 +316,7 @@ fn gen_request(rng: &mut Rng, limit: usize) -> Vec<u8> {
         r.extend_from_slice(name); r.extend_from_slice(b":"); if rng.chance(80) { r.push(b' '); } r.extend_from_slice(val); r.extend_from_slice(b"\r\n");
     }
     if rng.chance(20) { r.extend_from_slice(b"X-Custom: v\r\n"); }
+    if rng.chance(8) { r.extend_from_slice(if rng.chance(70) { b"Transfer-Encoding: chunked\r\n" } else { b"Transfer-Encoding: identity\r\n" }); }
     if rng.chance(5) {
         r.extend_from_slice(b"X-Long: ");
         for _ in 0..(1000 + rng.below(40)) { r.push(b'x'); }
@@ -394,6 +395,7 @@ fn search_c11(budget: usize) {
         b"GET /x HTTQ/1.1\r\n\r\n".to_vec(),
         b"BAD /x HTTP/1.1\r\n".to_vec(),
         b"PUT /big HTTP/1.1\r\nContent-Length: 99999\r\n\r\n".to_vec(),
+        b"PUT /big HTTP/1.1\r\nExpect: 100-continue\r\nContent-Length: 99999\r\n\r\n".to_vec(),
         b"PUT /b HTTP/1.1\r\nContent-Length: 4\r\nnocolon\r\n".to_vec(),
         // over-long lines: exactly 1024 bytes without CRLF, so that nothing of A is left in the socket at the error
         { let mut v = b"GET /".to_vec(); v.extend(vec![b'a'; 1019]); v },
@@ -646,7 +648,51 @@ fn one_write_per_call() {
     }
 }
 
+// ---------------------------------------------------------------- C03: at most one receive per try_read (scripted ScmSocket)
+struct ScriptedRx { script: std::cell::RefCell<std::collections::VecDeque<Result<Vec<u8>, i32>>>, tail: i32, calls: std::rc::Rc<std::cell::Cell<usize>> }
+impl Read for ScriptedRx { fn read(&mut self, _b: &mut [u8]) -> std::io::Result<usize> { self.calls.set(self.calls.get() + 1); Err(std::io::Error::from_raw_os_error(libc::EAGAIN)) } }
+impl Write for ScriptedRx { fn write(&mut self, b: &[u8]) -> std::io::Result<usize> { Ok(b.len()) } fn flush(&mut self) -> std::io::Result<()> { Ok(()) } }
+impl vmm_sys_util::sock_ctrl_msg::ScmSocket for ScriptedRx {
+    fn socket_fd(&self) -> std::os::unix::io::RawFd { -1 }
+    unsafe fn recv_with_fds(&self, iovecs: &mut [libc::iovec], _in_fds: &mut [std::os::unix::io::RawFd]) -> vmm_sys_util::errno::Result<(usize, usize)> {
+        self.calls.set(self.calls.get() + 1);
+        if self.calls.get() > 5000 { return Ok((0, 0)); }   // a connection that keeps retrying must still terminate the search
+        match self.script.borrow_mut().pop_front() {
+            Some(Ok(bytes)) => {
+                let n = bytes.len().min(iovecs[0].iov_len);
+                std::ptr::copy_nonoverlapping(bytes.as_ptr(), iovecs[0].iov_base as *mut u8, n);
+                Ok((n, 0))
+            }
+            Some(Err(e)) => Err(vmm_sys_util::errno::Error::new(e)),
+            None => Err(vmm_sys_util::errno::Error::new(self.tail)),
+        }
+    }
+}
+fn search_c03_receives() {
+    // whatever the stream answers (data, EAGAIN, EINTR, other errors, end of stream), one try_read is at most one receive and returns
+    let scripts: Vec<(&str, Vec<Result<Vec<u8>, i32>>, i32)> = vec![
+        ("data then would-block", vec![Ok(b"GET / HTTP/1.1\r\n".to_vec())], libc::EAGAIN),
+        ("interrupted three times, then data", vec![Err(libc::EINTR), Err(libc::EINTR), Err(libc::EINTR), Ok(b"GET / HTTP/1.1\r\n\r\n".to_vec())], libc::EAGAIN),
+        ("a stream that always answers EINTR", vec![], libc::EINTR),
+        ("a stream that always answers EAGAIN", vec![], libc::EAGAIN),
+        ("connection reset", vec![Err(libc::ECONNRESET)], libc::EAGAIN),
+    ];
+    for (what, script, tail) in scripts {
+        let calls = std::rc::Rc::new(std::cell::Cell::new(0usize));
+        let n_steps = script.len() + 3;
+        let stream = ScriptedRx { script: std::cell::RefCell::new(script.into()), tail, calls: calls.clone() };
+        let mut c = HttpConnection::new(stream);
+        for i in 0..n_steps {
+            let before = calls.get();
+            let _ = c.try_read();
+            let n = calls.get() - before;
+            if n > 1 { found("C03", format!("scripted stream: {}; try_read call #{}", what, i + 1), format!("{} receives in one try_read", n), "at most one receive per call".into()); }
+        }
+    }
+}
+
 fn search_c03(budget: usize) {
+    search_c03_receives();
     one_write_per_call();
     let mut rng = Rng(0xE7037ED1A0B428DB);
     let mut tried = 0;
@@ -699,6 +745,21 @@ fn search_c05(budget: usize) {
         r.write_all(&mut out).unwrap();
         tried += 1;
         let desc = format!("Response::new({:?}, {}) {:?}", v, nums[ci], calls);
+        // "the same bytes are produced however the sink splits the writes": a sink that accepts at most k bytes per write
+        struct Short { k: usize, got: Vec<u8>, turn: usize }
+        impl Write for Short {
+            fn write(&mut self, b: &[u8]) -> std::io::Result<usize> {
+                self.turn += 1;
+                if self.turn % 5 == 0 { return Err(std::io::Error::from(std::io::ErrorKind::Interrupted)); }
+                let n = b.len().min(self.k); self.got.extend_from_slice(&b[..n]); Ok(n)
+            }
+            fn flush(&mut self) -> std::io::Result<()> { Ok(()) }
+        }
+        let mut sink = Short { k: 1 + rng.below(7), got: vec![], turn: 0 };
+        let k = sink.k;
+        if r.write_all(&mut sink).is_err() || sink.got != out {
+            found("C05", format!("{} written to a sink that accepts at most {} bytes per write (and is interrupted every 5th call)", desc, k), esc(&sink.got), format!("the same bytes as into a Vec: {}", esc(&out)));
+        }
         let head_end = match out.windows(4).position(|w| w == b"\r\n\r\n") { Some(p) => p, None => found("C05", desc, esc(&out), "a header block terminated by CRLFCRLF".into()) };
         let head = String::from_utf8_lossy(&out[..head_end]).to_string();
         let mut lines = head.split("\r\n");
